@@ -177,7 +177,7 @@ class Outcome:
 
 class Interp:
     def __init__(self, fn_node, consts=None, maxpaths=20000, sym_attrs=(), init_env=None, hooks=None, universes=None,
-                 sub_bases=(), call_syms=None, call_ctors=(), inline=None):
+                 sub_bases=(), call_syms=None, call_ctors=(), inline=None, loop_summary=False):
         """sym_attrs: attribute-text suffixes to be treated as Lin symbols (e.g. '_sz')."""
         self.fn = fn_node
         self.results = []
@@ -193,6 +193,7 @@ class Interp:
         self.call_ctors = set(call_ctors)  # call func texts abstracted as Ctor('call:<f>', args)
         self.inline = inline or {}         # 'self.name' -> FunctionDef, interpreted at the call site
         self.fresh = 0
+        self.loop_summary = loop_summary   # summarise counted loops: v_after = v_before + N * delta, stores become ranges
 
     # ---- helpers
     def key(self, p, node):
@@ -210,7 +211,7 @@ class Interp:
             return Lin({}, v.v)
         if isinstance(v, Opq):
             return Lin({v.text: 1})
-        if isinstance(v, Ctor) and v.cls.startswith("attr:"):
+        if isinstance(v, Ctor) and (v.cls.startswith("attr:") or v.cls.startswith("call:") or v.cls.startswith("meth:") or v.cls == "div"):
             return Lin({repr(v): 1})
         return None
 
@@ -313,6 +314,16 @@ class Interp:
                             nxt.append((q2, args, kw2))
                     outs = nxt
                 return [(q, Ctor(f, args, kw, n)) for q, args, kw in outs]
+            if self.call_ctors and isinstance(n.func, ast.Attribute):
+                outs = [(q, [v]) for q, v in self.ev(p, n.func.value)]
+                for a in n.args:
+                    nxt = []
+                    for q, args in outs:
+                        for q2, v in self.ev(q, a):
+                            nxt.append((q2, args + [v]))
+                    outs = nxt
+                if outs and all(any(isinstance(x, Ctor) for x in args) for q, args in outs):
+                    return [(q, Ctor("meth:" + n.func.attr, args, {}, n)) for q, args in outs]
             return [(p, Opq(self.key(p, n)))]
         if isinstance(n, ast.Compare) or isinstance(n, ast.BoolOp) or (isinstance(n, ast.UnaryOp) and isinstance(n.op, ast.Not)):
             return [(q, Const(t)) for q, t in self.cond(p, n)]
@@ -343,6 +354,8 @@ class Interp:
         return res
 
     def binop(self, p, n, l, r):
+        if isinstance(n.op, (ast.Div, ast.FloorDiv)) and self.call_ctors:
+            return Ctor("div", [l, r], {}, n)
         if isinstance(l, Const) and isinstance(r, Const) and isinstance(l.v, int) and isinstance(r.v, int) and type(n.op) in ARITH:
             try:
                 return Const(ARITH[type(n.op)](l.v, r.v))
@@ -498,6 +511,14 @@ class Interp:
         return paths
 
     def step(self, p, s):
+        if isinstance(s, ast.Assign) and len(s.targets) == 1 and isinstance(s.targets[0], ast.Subscript) \
+                and U(s.targets[0].value) in self.sub_bases and not isinstance(s.targets[0].slice, ast.Slice):
+            out = []
+            for q, v in self.ev(p, s.value):
+                for q2, idx in self.ev(q, s.targets[0].slice):
+                    q2.env["$stores"] = tuple(q2.env.get("$stores", ())) + (("store", idx, v, s),)
+                    out.append(q2)
+            return out
         if isinstance(s, ast.Assign) and len(s.targets) == 1:
             out = []
             for q, v in self.ev(p, s.value):
@@ -552,6 +573,8 @@ class Interp:
             name = U(s.exc.func) if isinstance(s.exc, ast.Call) else (U(s.exc) if s.exc else "reraise")
             self.results.append(Outcome("raise", p, name, s))
             return []
+        if isinstance(s, ast.For) and self.loop_summary:
+            return self.summarise_loop(p, s)
         if isinstance(s, ast.For):
             q = p.copy()
             q.env[U(s.target)] = Opq(U(s.target))
@@ -585,6 +608,108 @@ class Interp:
                     return r
             return [p]
         return [p]
+
+    def trip_count(self, p, it):
+        """(lo, hi) bounds of the number of iterations; hi None = unbounded"""
+        if isinstance(it, ast.Call) and U(it.func) == "range" and it.args and not it.keywords:
+            vals = []
+            for a in it.args:
+                v = self.ev(p, a)
+                if len(v) != 1 or not (isinstance(v[0][1], Const) and isinstance(v[0][1].v, int)):
+                    if len(it.args) == 1:
+                        return ("sym", U(a)), ("sym", U(a))
+                    return 0, None
+                vals.append(v[0][1].v)
+            if len(vals) == 1:
+                n = max(vals[0], 0)
+            elif len(vals) == 2:
+                n = max(vals[1] - vals[0], 0)
+            else:
+                return 0, None
+            return n, n
+        lo, hi = 0, None
+        n = it
+        while True:
+            if isinstance(n, ast.Call) and isinstance(n.func, ast.Attribute) and n.func.attr in ("upper", "lower", "strip") and not n.args:
+                if n.func.attr == "strip":
+                    lo = 0
+                n = n.func.value
+            elif isinstance(n, ast.Call) and isinstance(n.func, ast.Attribute) and n.func.attr in ("ljust", "rjust", "center") and n.args:
+                k = self.ev(p, n.args[0])
+                inner_lo, inner_hi = self._strlen(p, n.func.value)
+                if len(k) == 1 and isinstance(k[0][1], Const) and isinstance(k[0][1].v, int):
+                    kk = k[0][1].v
+                    return max(inner_lo, kk), (None if inner_hi is None else max(inner_hi, kk))
+                return lo, hi
+            elif isinstance(n, ast.Subscript) and isinstance(n.slice, ast.Slice) and n.slice.lower is None and n.slice.step is None and n.slice.upper is not None:
+                k = self.ev(p, n.slice.upper)
+                if len(k) == 1 and isinstance(k[0][1], Const) and isinstance(k[0][1].v, int) and k[0][1].v >= 0:
+                    kk = k[0][1].v
+                    ilo, ihi = self.trip_count(p, n.value)
+                    if isinstance(ilo, tuple):
+                        return 0, kk
+                    return min(ilo, kk), kk if ihi is None else min(ihi, kk)
+                return 0, None
+            else:
+                return lo, hi
+
+    def _strlen(self, p, n):
+        r = self.trip_count(p, n)
+        if isinstance(r[0], tuple):
+            return 0, None
+        return r
+
+    def summarise_loop(self, p, s):
+        lo, hi = self.trip_count(p, s.iter)
+        q = p.copy()
+        tv = U(s.target)
+        q.env[tv] = Opq("@iter:" + tv)
+        q.env["$stores"] = ()
+        outs = self.run_block([q], s.body)
+        results = []
+        seen = set()
+        for o in outs:
+            new = p.copy()
+            deltas = {}
+            for var, after in o.env.items():
+                if var.startswith("$") or var == tv:
+                    continue
+                before = p.env.get(var)
+                if before is None:
+                    new.env[var] = Opq("%s@loop%d" % (var, s.lineno))
+                    continue
+                if repr(before) == repr(after):
+                    continue
+                lb, la = self.aslin(before), self.aslin(after)
+                if lb is not None and la is not None:
+                    terms = dict(la.terms)
+                    for k, v in lb.terms.items():
+                        terms[k] = terms.get(k, 0) - v
+                    d = Lin(terms, la.c - lb.c)
+                    if not d.terms:
+                        deltas[var] = d.c
+                        if lo == hi and isinstance(lo, int):
+                            nv = Lin(dict(lb.terms), lb.c + lo * d.c)
+                        elif isinstance(lo, tuple):
+                            t2 = dict(lb.terms)
+                            t2[lo[1]] = t2.get(lo[1], 0) + d.c
+                            nv = Lin(t2, lb.c)
+                        else:
+                            t2 = dict(lb.terms)
+                            t2["N@loop%d" % s.lineno] = d.c
+                            nv = Lin(t2, lb.c)
+                        new.env[var] = nv if nv.terms else Const(nv.c)
+                        continue
+                new.env[var] = Opq("%s@loop%d" % (var, s.lineno))
+            body_stores = tuple(o.env.get("$stores", ()))
+            if body_stores:
+                new.env["$stores"] = tuple(p.env.get("$stores", ())) + (("loop", lo, hi, body_stores, deltas, s),)
+            k = (repr(sorted((a, repr(b)) for a, b in new.env.items() if not a.startswith("$"))), repr(body_stores))
+            if k in seen:
+                continue
+            seen.add(k)
+            results.append(new)
+        return results or [p]
 
     def run(self):
         p = Path()
